@@ -114,3 +114,90 @@ def tor_add_onion_reply(line, n):
             key_line = "RSA1024:" + rsa_blob
     cookies = [(name, "Y29va2llY29va2llY29va2")for name, blob in a.client_auth if blob is None]
     return onionref.add_onion_reply(sid, key_line, cookies), sid
+
+
+# --------------------------------------------------------------------------- additions (round 2)
+#   RestartableReactor(first_port=...)   a FakeReactor whose listening ports can be re-opened with startListening()
+#                                        after stopListening(), as twisted's tcp.Port can: a port that was requested as
+#                                        0 gets a fresh number from next_port, a fixed one re-binds the same number;
+#                                        re-opened ports are active in .listeners again; .restart_log = [(port, interface)]
+#   LaunchRecorder()                     context manager: replaces txtorcon.controller.launch by a recorder for the
+#                                        duration of a case (module attribute substitution, restored afterwards) and puts
+#                                        txtorcon.endpoints' process-global Tor state back as it found it.  .calls = one
+#                                        dict per launch() call; the "launched Tor" never comes up (its Deferred is failed
+#                                        on exit so that the global-Tor lock is released).  A missing private name is a
+#                                        HarnessError.
+
+from vlib.fakereactor import FakeReactor, FakeListeningPort          # noqa: E402
+from vlib.runner import HarnessError                                 # noqa: E402
+
+
+class RestartableListeningPort(FakeListeningPort):
+    requested_port = 0
+
+    def startListening(self):
+        if not self.stopped:
+            return
+        if self.unix is None:
+            if self.requested_port == 0:
+                self.port = self.reactor.next_port
+                self.reactor.next_port += 1
+            for lp in self.reactor.listeners:
+                if lp.unix is None and lp.port == self.port and lp.interface == self.interface:
+                    raise error.CannotListenError(self.interface, self.port, OSError(98, "Address already in use"))
+        self.stopped = False
+        self.reactor.listeners.append(self)
+        self.reactor.restart_log.append((self.port if self.unix is None else self.unix, self.interface))
+
+
+class RestartableReactor(FakeReactor):
+    def __init__(self, *a, **kw):
+        FakeReactor.__init__(self, *a, **kw)
+        self.restart_log = []
+
+    def _listen(self, port, factory, backlog, interface, unix=None):
+        lp = FakeReactor._listen(self, port, factory, backlog, interface, unix)
+        new = RestartableListeningPort(self, lp.port, factory, interface, backlog, unix)
+        new.requested_port = port
+        self.listeners[self.listeners.index(lp)] = new
+        return new
+
+
+class LaunchRecorder(object):
+    def __init__(self):
+        self.calls = []
+        self._pending = []
+
+    def _launch(self, reactor, *args, **kw):
+        from twisted.internet import defer
+        self.calls.append(dict(kw, _args=len(args)))
+        d = defer.Deferred()            # a Tor that is still starting up
+        self._pending.append(d)
+        return d
+
+    def __enter__(self):
+        from txtorcon import controller, endpoints
+        for mod, name in ((controller, "launch"), (endpoints, "_global_tor"), (endpoints, "_global_tor_lock"),
+                          (endpoints, "get_global_tor_instance")):
+            if not hasattr(mod, name):
+                raise HarnessError("%s.%s is missing" % (mod.__name__, name))
+        self._controller, self._endpoints = controller, endpoints
+        self._saved_launch = controller.launch
+        self._saved_global = endpoints._global_tor
+        if endpoints._global_tor_lock.locked:
+            raise HarnessError("the global-Tor lock is held before the case starts")
+        endpoints._global_tor = None
+        controller.launch = self._launch
+        return self
+
+    def __exit__(self, *exc):
+        self._controller.launch = self._saved_launch
+        while self._pending:
+            d = self._pending.pop()
+            if not d.called:
+                d.addErrback(lambda f: None)
+                d.errback(RuntimeError("harness: this Tor is never launched"))
+        self._endpoints._global_tor = self._saved_global
+        if self._endpoints._global_tor_lock.locked:
+            raise HarnessError("the global-Tor lock is still held after the case")
+        return False
